@@ -495,8 +495,12 @@ def run_analysis(impl: Impl, rng, surface: str) -> tuple[str | None, str]:
                     [k.get_minimum_energy(i) for i in range(k.n_minima)])), penalise_edge=False, coords=coords,
                     penalise_similarity=False, proximity_measure=0.1, known_points=None))
             before = list(excl)
-            bs.select_batch(k, rng.choice([1, 2, 3]), rng.choice(['Lowest', 'Monotonic', 'Barrier', 'Topographical']),
-                            rng.random() < 0.5, rng.choice([0.05, 0.5, 2.0]), excl)
+            res = bs.select_batch(k, rng.choice([1, 1, 2, 3]), rng.choice(['Lowest', 'Monotonic', 'Barrier', 'Topographical']),
+                                  rng.random() < 0.5, rng.choice([0.05, 0.5, 2.0]), excl)
+            # what comes back is the caller's: a script rounds / rescales its batch in place before evaluating it
+            for part in (res if isinstance(res, tuple) else (res,)):
+                if isinstance(part, np.ndarray) and part.dtype.kind == "f" and part.flags.writeable:
+                    part[...] = 9.75e8
             if list(excl) != before:
                 return "analysis select_batch changed the caller's exclusion list", name
         elif which == 7:
